@@ -171,6 +171,7 @@ class Sim:
         self.chain = []            # list of RBlock: the chain the index should reflect
         self.tx_hashes = []        # every (name, tx hash) ever generated (for distinctness)
         self.collide = set()       # frozenset({name, name}): pairs whose 4-byte prefixes may collide
+        self.reserved = []         # outputs spent by prepared (mempool) transactions
         self.nonce = 0
         self.db = self.bp = self.env = None
         self.crashed = False
@@ -228,6 +229,12 @@ class Sim:
         specs = [{'ins': 'cb', 'outs': spec.get('cb', 'A')}] + list(spec.get('txs', []))
         for t, ts in enumerate(specs):
             name = f'{tag}t{t}'
+            if 'pre' in ts:
+                rt = ts['pre']            # a prepared (mempool) transaction confirmed by this block
+                rtxs.append(rt)
+                pairs.append((rt.tx, rt.hash))
+                txnum += 1
+                continue
             txhash = self.new_hash(name)
             ins, rins = [], []
             if ts['ins'] == 'cb':
@@ -235,6 +242,8 @@ class Sim:
             else:
                 for i in range(ts['ins']):
                     taken = {id(x) for rt in rtxs for x in rt.ins} | {id(x) for x in rins}
+                    taken |= {id(x) for s2 in specs if 'pre' in s2 for x in s2['pre'].ins}
+                    taken |= {id(x) for x in self.reserved}
                     cands = [o for o in self.utxos(chain) + [o for rt in rtxs for o in rt.outs if o.spendable]
                              if id(o) not in taken]
                     if not cands:
@@ -266,6 +275,36 @@ class Sim:
         blk = RBlock(height, header, size, rtxs, bhash, StubBlock(height, header, size, pairs))
         chain.append(blk)
         return blk
+
+    def prepare_tx(self, name, n_ins, outs, chain, parents=()):
+        '''A transaction that is not in a block yet (mempool): spends unspent outputs of the
+        given chain and/or outputs of the parent prepared transactions.'''
+        from electrumx.lib.tx import Tx, TxInput, TxOutput
+        eng = self.eng
+        txhash = self.new_hash(name)
+        height = len(chain)
+        rins, ins = [], []
+        for i in range(n_ins):
+            taken = {id(x) for x in self.reserved} | {id(x) for x in rins}
+            cands = [o for o in self.utxos(chain) + [o for p in parents for o in p.outs if o.spendable]
+                     if id(o) not in taken]
+            if not cands:
+                continue
+            o = cands[eng.choice(f'{name}_in{i}', len(cands))]
+            rins.append(o)
+            ins.append(TxInput(o.txhash, o.idx, b'', 0))
+        outs_t, routs = [], []
+        for j, kind in enumerate(outs):
+            script = eng.fresh_bytes(f'{name}_s{j}', 3) if kind == 'S' else self.wrap(SCRIPTS[kind])
+            value = eng.fresh_word(f'{name}_v{j}', 64)
+            if not self.native:
+                eng.assume(value <= 21 * 10 ** 14)
+            spendable = not ref_unspendable(script, height, self.activation)
+            routs.append(ROut(txhash, j, script, value, None, None, spendable, ref_hashX(script)))
+            outs_t.append(TxOutput(value, script))
+        rt = RTx(txhash, rins, routs, None, None, Tx(1, ins, outs_t, 0))
+        self.reserved += rins
+        return rt
 
     def new_hash(self, name):
         """A transaction hash: 8 symbolic leading bytes followed by a concrete tail that is
@@ -327,6 +366,14 @@ def check_index(sim, label, *, queries=None, check_history=True, check_utxos=Tru
     all_outs = [o for b in chain for tx in b.txs for o in tx.outs]
     live = live_outputs(chain)
     live_ids = {id(o) for o in live}
+    # confirmation height / transaction number of every output, derived from the chain given
+    pos = {}
+    _n = 0
+    for b in chain:
+        for tx in b.txs:
+            for o in tx.outs:
+                pos[id(o)] = (b.height, _n)
+            _n += 1
     n_tx = sum(len(b.txs) for b in chain)
     if check_state:
         st = db.state
@@ -352,11 +399,11 @@ def check_index(sim, label, *, queries=None, check_history=True, check_utxos=Tru
             got = run(db.all_utxos(q))
             exp = [o for o in live if bool(o.hashX == q)]
             got = sorted(got, key=lambda u: (_known(u.tx_num), _known(u.tx_pos)))
-            exp = sorted(exp, key=lambda o: (o.txnum, o.idx))
+            exp = sorted(exp, key=lambda o: (pos[id(o)][1], o.idx))
             eng.prove(len(got) == len(exp), f'{label}: all_utxos returns a wrong number of outputs',
                       sig('all_utxos-count'))
-            eng.prove(z3_and([z3_and([deep_eq(u.tx_num, o.txnum), deep_eq(u.tx_pos, o.idx),
-                                      deep_eq(u.tx_hash, o.txhash), deep_eq(u.height, o.height),
+            eng.prove(z3_and([z3_and([deep_eq(u.tx_num, pos[id(o)][1]), deep_eq(u.tx_pos, o.idx),
+                                      deep_eq(u.tx_hash, o.txhash), deep_eq(u.height, pos[id(o)][0]),
                                       deep_eq(u.value, o.value)]) for u, o in zip(got, exp)]),
                       f'{label}: all_utxos returns wrong outputs', sig('all_utxos'))
             symx.observe(f'{label}.utxos{qi}', [(u.tx_num, u.tx_pos, u.height, u.value) for u in got])
